@@ -6,6 +6,7 @@
 #![allow(clippy::redundant_clone, clippy::clone_on_copy, clippy::needless_borrow, clippy::useless_conversion)]
 
 use crate::spec;
+use crate::usercodec::UserCodec;
 use flatcontainer::impls::codec::{CodecRegion, DictionaryCodec};
 use flatcontainer::impls::deduplicate::{CollapseSequence, ConsecutiveIndexPairs};
 use flatcontainer::impls::huffman_container::HuffmanContainer;
@@ -53,6 +54,34 @@ macro_rules! arr_refref {
             _ => $p.push($v.as_slice()),
         }
     };
+}
+
+/// reserve_items over `&[T; N]` when every announced value has the same length N <= 4 (the array
+/// impls need one N per call), falling back to the slice form otherwise.
+macro_rules! arr_reserve {
+    ($rp:ident, $vs:ident, $T:ty) => {{
+        let n = $vs.first().map(|v| v.len()).unwrap_or(0);
+        if !$vs.iter().all(|v| v.len() == n) || n > 4 {
+            $rp.reserve_items($vs.iter().map(|v| v.as_slice()))
+        } else {
+            match n {
+                0 => $rp.reserve_items($vs.iter().map(|v| <&[$T; 0]>::try_from(v.as_slice()).unwrap())),
+                1 => $rp.reserve_items($vs.iter().map(|v| <&[$T; 1]>::try_from(v.as_slice()).unwrap())),
+                2 => $rp.reserve_items($vs.iter().map(|v| <&[$T; 2]>::try_from(v.as_slice()).unwrap())),
+                3 => $rp.reserve_items($vs.iter().map(|v| <&[$T; 3]>::try_from(v.as_slice()).unwrap())),
+                _ => $rp.reserve_items($vs.iter().map(|v| <&[$T; 4]>::try_from(v.as_slice()).unwrap())),
+            }
+        }
+    }};
+}
+/// reserve_items over read items of a scratch region of the same type holding the announced values.
+macro_rules! read_reserve {
+    ($rp:ident, $vs:ident, $R:ty) => {{
+        let mut t = <$R>::default();
+        let ix: Vec<_> = $vs.iter().map(|v| flatcontainer::Push::push(&mut t, v)).collect();
+        let tr = &t;
+        $rp.reserve_items(ix.iter().map(move |i| flatcontainer::Region::index(tr, *i)))
+    }};
 }
 
 /// An owned vector whose allocation is much larger than its contents (a caller may hand over any
@@ -126,6 +155,7 @@ spec!(
         rp.reserve_items(vs.iter()),
         rp.reserve_items(vs.iter().map(|v| v.as_slice())),
         rp.reserve_items(vs.iter().map(|v| PushIter(v.iter().copied()))),
+        arr_reserve!(rp, vs, u8),
     ],
 );
 
@@ -152,7 +182,7 @@ spec!(
         arr_ref!(p, v, String),
         p.push(roomy(v)),
     ],
-    reserve(rp, vs): [rp.reserve_items(vs.iter()), rp.reserve_items(vs.iter().map(|v| v.as_slice()))],
+    reserve(rp, vs): [rp.reserve_items(vs.iter()), rp.reserve_items(vs.iter().map(|v| v.as_slice())), arr_reserve!(rp, vs, String)],
 );
 
 spec!(
@@ -268,7 +298,12 @@ spec!(
         arr_ref!(p, v, u8),
         arr_refref!(p, v, u8),
     ],
-    reserve(rp, vs): [rp.reserve_items(vs.iter()), rp.reserve_items(vs.iter().map(|v| v.as_slice()))],
+    reserve(rp, vs): [
+        rp.reserve_items(vs.iter()),
+        rp.reserve_items(vs.iter().map(|v| v.as_slice())),
+        arr_reserve!(rp, vs, u8),
+        read_reserve!(rp, vs, SliceRegion<MirrorRegion<u8>>),
+    ],
 );
 
 spec!(
@@ -286,7 +321,12 @@ spec!(
         arr_owned!(p, v, String),
         arr_ref!(p, v, String),
     ],
-    reserve(rp, vs): [rp.reserve_items(vs.iter()), rp.reserve_items(vs.iter().map(|v| v.as_slice()))],
+    reserve(rp, vs): [
+        rp.reserve_items(vs.iter()),
+        rp.reserve_items(vs.iter().map(|v| v.as_slice())),
+        arr_reserve!(rp, vs, String),
+        read_reserve!(rp, vs, SliceRegion<StringRegion>),
+    ],
 );
 
 spec!(
@@ -780,5 +820,37 @@ spec!(
     dense: yes, collapse_top: no, presize: no, plain: no,
     byref(x): x.iter().map(|c| c.as_slice()).collect::<Vec<&[u8]>>(),
     forms(p, v): [p.push(v.iter().map(|c| c.as_slice()).collect::<Vec<&[u8]>>()), p.push(PushIter(v.iter().map(|c| c.as_slice())))],
+    reserve(rp, vs): [],
+);
+
+// ---------------------------------------------------------------------------------------------
+// CodecRegion over a caller-supplied codec (Clone, accepts everything): CodecRegion's own
+// clone / clone_from / merge / clear plumbing, which the crate's non-Clone dictionary cannot reach
+// ---------------------------------------------------------------------------------------------
+
+spec!(
+    UserCodecReg, "CodecRegion<UserCodec>", CodecRegion<UserCodec>,
+    clone: yes, serde: no, heap: no, resreg: yes, copy: yes, debug: yes,
+    dense: no, collapse_top: no, presize: no, plain: no,
+    byref(x): x.as_slice(),
+    forms(p, v): [p.push(v.as_slice())],
+    reserve(rp, vs): [],
+);
+
+spec!(
+    StrUserCodec, "StringRegion<CodecRegion<UserCodec>>", StringRegion<CodecRegion<UserCodec>>,
+    clone: yes, serde: no, heap: no, resreg: yes, copy: yes, debug: yes,
+    dense: no, collapse_top: no, presize: no, plain: no,
+    byref(x): x,
+    forms(p, v): [p.push(v), p.push(v.clone()), p.push(v.as_str())],
+    reserve(rp, vs): [],
+);
+
+spec!(
+    CollapseUserCodec, "CollapseSequence<CodecRegion<UserCodec,ConsecutiveIndexPairs<OwnedRegion<u8>>>>", CollapseSequence<CodecRegion<UserCodec, ConsecutiveIndexPairs<OwnedRegion<u8>>>>,
+    clone: yes, serde: no, heap: no, resreg: yes, copy: yes, debug: yes,
+    dense: no, collapse_top: yes, presize: no, plain: no,
+    byref(x): x.as_slice(),
+    forms(p, v): [p.push(v.as_slice())],
     reserve(rp, vs): [],
 );
